@@ -722,6 +722,15 @@ def rand_circuit(rng, tier_quick, p_u3=0.45, symbolic=False, nongate=False, min_
             ops.append(rand_u3_op(rng, n, symbolic=symbolic))
         else:
             ops.append(rand_other_op(rng, n))
+    if symbolic and rng.random() < 0.6:
+        # a TWIN of one symbolic U3 operation: same controls, same qubits, angles that PRINT the same and are other
+        # symbols (declared real) - the two operations are different operations and get different values
+        sym_ops = [o for o in ops if _u3_status(o) in ("plain", "controlled") and getattr(o.gate, "free_symbols", None)]
+        if sym_ops:
+            o = rng.choice(sym_ops)
+            ren = {x: sympy.Symbol(x.name, real=True) for x in o.gate.free_symbols}
+            newp = tuple(p.xreplace(ren) if isinstance(p, sympy.Basic) else p for p in o.gate.params)
+            ops.insert(rng.randint(0, len(ops)), o.gate.replace_params(newp)(*o.qubit_indices))
     if nongate:
         ops.insert(rng.randint(0, len(ops)), rand_nongate_op(rng, n))
     idle = rng.random() < 0.3
@@ -761,7 +770,7 @@ def run_case(ctx):
     quick = ctx.quick
 
     if cls in ("u3", "empty"):
-        symbolic = cls == "u3" and rng.random() < 0.07
+        symbolic = cls == "u3" and rng.random() < 0.12
         nongate = rng.random() < 0.08
         circuit, n = rand_circuit(rng, quick, symbolic=symbolic, nongate=nongate,
                                   p_u3=0.45 if cls == "u3" else 0.3)
